@@ -26,7 +26,9 @@ EVIDENCE = {
             'zero or garbage tail.  In a fifth of the later lives the cache files of the announced checksums are removed or '
             'made unreadable by somebody else after the Crazyflie object listed them (before open_link, or between two '
             'connections of one object).  In 15 % of the lives a second Crazyflie object of the same process connects to '
-            'the other firmware at the same time over the same cache directories (file-system calls are scheduling points).',
+            'the other firmware at the same time over the same cache directories (file-system calls are scheduling points).  '
+            'In 15 % of the later lives the cached files of the firmware were written by "another library version": '
+            'well-formed JSON whose elements lack one field of the current format.',
     'directed': 'every byte offset of the log-table and parameter-table cache files of a small firmware (crash after a '
                 'complete first connect), followed by a reconnect; two objects filling one read-write directory at the same '
                 'virtual instant with tables of equal size (24 / 120 schedules), then a cached connection to each firmware',
@@ -168,6 +170,8 @@ def execute(ctx):
             deaths.extend(ctx.sim.thread_deaths)
             sim = kernel.Sim(kernel.Decisions(seed=H(ctx.seed, 'sched', li)), line_mean=ctx.knobs.get('line_mean', 0),
                              p_stall=ctx.knobs.get('p_stall', 0.0), stall_window=ctx.knobs.get('stall_window', 0.02),
+                             pct=ctx.knobs.get('pct', 0), pct_horizon=ctx.knobs.get('pct_horizon', 20000),
+                             p_starve=ctx.knobs.get('p_starve', 0.0), starve_len=ctx.knobs.get('starve_len', 200),
                              trace_roots=ctx.sim.trace_roots, keep_log=ctx.sim.keep_log)
             ctx.sim = sim
         run_life(ctx, sim, fs, plan, li, life, complete, Crazyflie)
